@@ -301,7 +301,7 @@ template<size_t axis0 = 0, size_t axis1 = 1, class Derived, size_t DIMS,
     enable_if_t_<DIMS==2 && requires_evaluation_v<Derived>,bool> = false>
 FASTOR_INLINE bool issymmetric(const AbstractTensor<Derived,DIMS> &_src, const double Tol=PRECI_TOL) {
     if (!issquare(_src.self())) return false;
-    return all_of( abs(evaluate(trans(_src.self()) - _src.self())) < Tol);
+    return all_of( abs(evaluate(trans(_src.self()) - _src.self())) <= Tol);
 }
 template<size_t axis0 = 0, size_t axis1 = 1, class Derived, size_t DIMS,
     enable_if_t_<DIMS==2 && !requires_evaluation_v<Derived>,bool> = false>
@@ -340,7 +340,7 @@ template<class Derived, size_t DIMS, enable_if_t_<DIMS==2,bool> = false>
 constexpr FASTOR_INLINE bool isvolumetric(const AbstractTensor<Derived,DIMS> &_src, const double Tol=PRECI_TOL) {
     typename Derived::result_type I; I.eye2();
     typename Derived::result_type tmp = trace(_src.self()) * I;
-    return all_of( abs(tmp - _src.self()) < Tol);
+    return all_of( abs(tmp - _src.self()) <= Tol);
 }
 
 /* A second order tensor expression belongs to the special linear group if
@@ -372,7 +372,7 @@ FASTOR_INLINE bool isequal(
         const double Tol=PRECI_TOL) {
     if ( DIMS0 != DIMS1) return false;
     if ( _src0.self().size() != _src1.self().size()) return false;
-    return all_of( abs(_src0.self() - _src1.self()) < Tol);
+    return all_of( abs(_src0.self() - _src1.self()) <= Tol);
 }
 template<class Derived0, size_t DIMS0, class Derived1, size_t DIMS1,
     enable_if_t_<requires_evaluation_v<Derived0> || requires_evaluation_v<Derived1>,bool> = false>
@@ -382,7 +382,7 @@ FASTOR_INLINE bool isequal(
         const double Tol=PRECI_TOL) {
     if ( DIMS0 != DIMS1) return false;
     if ( _src0.self().size() != _src1.self().size()) return false;
-    return all_of( abs(evaluate(_src0.self() - _src1.self())) < Tol);
+    return all_of( abs(evaluate(_src0.self() - _src1.self())) <= Tol);
 }
 //----------------------------------------------------------------------------------------------------------//
 //----------------------------------------------------------------------------------------------------------//
